@@ -2011,6 +2011,17 @@ class _GroupElem(ABC):
         if elements_e is None:
             elements_e = self._Get_nearby_elements(coordinates_n)
 
+            mapping = self._Get_Mapping(coordinates_n, elements_e, needCoordinates)
+
+            # The element that contains a coordinate does not always own the node closest to it
+            # (flat or obtuse elements): search every element when a coordinate was not located.
+            if mapping[0].size < coordinates_n.shape[0] and elements_e.size < self.Ne:
+                mapping = self._Get_Mapping(
+                    coordinates_n, np.arange(self.Ne), needCoordinates
+                )
+
+            return mapping
+
         return self._Get_Mapping(coordinates_n, elements_e, needCoordinates)
 
     def _Get_Mapping(
